@@ -9,7 +9,7 @@ import semrun as S
 import values as V
 
 PID = "C18"
-THEOREMS = ["env_lookup", "env_unset_no_leak", "env_not_bindable", "env_not_a_parameter", "env_field_is_field"]
+THEOREMS = ["env_lookup", "env_unset_no_leak", "env_not_bindable", "env_not_a_parameter", "env_field_is_field", "env_is_reserved_in_the_sources"]
 
 
 def rand_name(rng):
@@ -60,8 +60,16 @@ def wrap(kind, R, tag):
 def run(tier, seed):
     ck = C.Check(PID, tier, seed, "proof")
     cov = ck.coverage
-    pr = C.prove(ck, ["theories/props/C18_Props.vo"], "props.C18_Props", THEOREMS)
+    import sys
+    sys.path.insert(0, os.path.join(C.VERIF, "translate"))
+    import t_reserved as T10
+    tr10 = T10.generate(C.REPO, C.GEN, C.write_if_changed)
+    cov["translator_reserved"] = tr10["status"]
     broken = []
+    if tr10["status"] != "generated":
+        C.write_if_changed(os.path.join(C.GEN, "Reserved.v"), open(os.path.join(C.COQ, "snapshots", "Reserved.v")).read())
+        broken.append({"translator": tr10["status"]})
+    pr = C.prove(ck, ["theories/props/C18_Props.vo"], "props.C18_Props", THEOREMS)
     if not pr["ok"]:
         broken.append({"obligations": "C18_Props", "built": pr["built"], "audit": pr["audit"],
                        "assumptions": pr["assumptions"], "log": pr["log_tail"][-1500:]})
